@@ -343,3 +343,4 @@ PROPS["C13"]["mir"].append(ob("dump_task_single_flight", "ob_misc", "dump_task_s
 PROPS["C12"]["mir"] += [ob("inner_new_state", "ob_misc", "inner_new_state"), ob("dump_task_single_flight_c12", "ob_misc", "dump_task_single_flight")]
 PROPS["C07"]["mir"] += [ob("init_new_ids", "ob_misc", "init_new_ids"), ob("inner_new_state_c07", "ob_misc", "inner_new_state")]
 PROPS["C03"]["mir"].append(ob("init_new_ids_c03", "ob_misc", "init_new_ids"))
+PROPS["C09"]["mir"].append(ob("node_fits_block", "ob_tree", "node_fits_block"))
